@@ -8,7 +8,7 @@ from .rvc_relocations import BcImm11Relocation, BcImm8Relocation
 from .rvc_relocations import CBImm11Relocation, CBlImm11Relocation
 from .relocations import BImm20Relocation
 from ..generic_instructions import ArtificialInstruction
-from ...utils.bitfun import sign_extend
+from ...utils.bitfun import sign_extend, wrap_negative
 from .instructions import Andr, Orr, Xorr, Subr, Addi, Slli, Srli
 from .instructions import Lw, Sw, Blt, Bgt, Bge, Beq, Bne, Ble, Blr
 from .instructions import Bgtu, Bltu, Bgeu, Bleu
@@ -95,12 +95,21 @@ class CiBase(RiscvcInstruction):
     def encode(self):
         if self.rs.num != self.rd.num:
             raise ValueError(f"Cannot encode rd={self.rd} and rs={self.rs}")
+        if self.func == 0b10:
+            # c.andi has a signed immediate, the sign is bit 12
+            imm6 = wrap_negative(self.imm, 6)
+        else:
+            # The shift amount of c.srli and c.srai, bit 12 must be 0
+            if self.imm not in range(0, 32):
+                raise ValueError(f"Cannot encode shift amount {self.imm}")
+            imm6 = self.imm
         tokens = self.get_tokens()
         tokens[0][0:2] = 0b01
-        tokens[0][2:7] = self.imm
+        tokens[0][2:7] = imm6 & 0x1F
         tokens[0][7:10] = self.rd.num - 8
         tokens[0][10:12] = self.func
-        tokens[0][12:16] = 0b1000
+        tokens[0][12:13] = imm6 >> 5
+        tokens[0][13:16] = 0b100
         return tokens[0].encode()
 
 
@@ -124,11 +133,14 @@ class CAddi(RiscvcInstruction):
     syntax = Syntax(["c", ".", "addi", " ", rd, ",", " ", rd, ",", " ", imm])
 
     def encode(self):
+        # The immediate is signed, its sign is bit 12
+        imm6 = wrap_negative(self.imm, 6)
         tokens = self.get_tokens()
         tokens[0][0:2] = 0b01
-        tokens[0][2:7] = self.imm
+        tokens[0][2:7] = imm6 & 0x1F
         tokens[0][7:12] = self.rd.num
-        tokens[0][12:16] = 0b0000
+        tokens[0][12:13] = imm6 >> 5
+        tokens[0][13:16] = 0b000
         return tokens[0].encode()
 
 
@@ -430,7 +442,7 @@ class CSwsp(RiscvcInstruction):
 
 class CLi(RiscvcInstruction):
     rd = Operand("rd", RiscvRegister, write=True)
-    imm = Operand("imm", int)
+    imm = Operand("imm", int, signed=True)
     syntax = Syntax(["c", ".", "li", " ", rd, ",", " ", imm])
     patterns = {"op": 0b01, "imm": imm, "rd": rd, "funct3": 0b010}
 
